@@ -108,6 +108,10 @@ def battery(nodes, level=2, exporters=True, rng=None, names=None):
                     out[pp + "findall.stop.%d" % si] = g(m, mod.findall, n, stop=inset(s), maxlevel=3)
                     out[pp + "find.%d" % si] = g(m, mod.find, n, filter_=inset(s))
                     out[pp + "findall.cnt.%d" % si] = g(m, mod.findall, n, filter_=inset(s), mincount=1, maxcount=2)
+                out[pp + "findall.nofilter"] = g(m, mod.findall, n)
+                out[pp + "findall.nofilter.ml1"] = g(m, mod.findall, n, maxlevel=1)
+                out[pp + "findall.nofilter.ml2"] = g(m, mod.findall, n, maxlevel=2)
+                out[pp + "find.nofilter.ml1"] = g(m, mod.find, n, maxlevel=1)
                 out[pp + "find_by_attr"] = g(m, mod.find_by_attr, n, "n%d" % (k // 2))
                 out[pp + "findall_by_attr"] = g(m, mod.findall_by_attr, n, "n0", maxlevel=3)
                 out[pp + "findall_by_attr.x"] = g(m, mod.findall_by_attr, n, 1, name="nosuchattr")
